@@ -20,6 +20,7 @@ def build(verbose=False):
         return True, ''
     env = dict(os.environ)
     env['CARGO_NET_OFFLINE'] = 'true'
+    env['CARGO_TARGET_DIR'] = os.path.join(CRATE, 'target')
     lock_src = '/repo/Cargo.lock'
     try:
         import shutil
